@@ -295,6 +295,57 @@ def position_nd(ctx, shape, lkinds, via, rich):
     return ctx.done(ctx.AND(*oks), obs)
 
 
+def ellipsis_nd(ctx, shape, lkinds, via, kinds):
+    """an Ellipsis in the key stands for as many full slices as are needed to address every dimension (NumPy's rule): the
+    indices written before it address the leading dimensions, those after it the trailing ones.  kinds: one index kind per
+    key item, '...' for the Ellipsis."""
+    a, ref, dims, labels = build(ctx, shape, lkinds)
+    nd = len(shape)
+    e = kinds.index('...')
+    before, after = kinds[:e], kinds[e + 1:]
+    full = list(before) + ['full'] * (nd - len(before) - len(after)) + list(after)
+    key = []
+    sel = []
+    position = via in ('ix', 'take-position')
+    for d, kind, l, lk, n in zip(dims, full, labels, lkinds, shape):
+        if position:
+            if kind == 'full':
+                i, s = slice(None), list(range(n))
+            elif kind == 'scalar':
+                c = ctx.choice('c%s' % d, n)
+                i, s = c, c
+            elif kind == 'slice':           # 1: (exclusive stop semantics of NumPy)
+                i, s = slice(1, None), list(range(1, n))
+            else:
+                i, s = [n - 1, 0], [n - 1, 0]
+        else:
+            if kind == 'slice':             # label slice between two existing labels of an increasing axis is not wanted here:
+                c = ctx.choice('c%s' % d, n)     # use "from this label to itself" which every axis kind supports
+                i, s = slice(l[c], l[c]), [c]
+            else:
+                i, s = make_index(ctx, d, kind, l, lk)
+        key.append(i)
+        sel.append(s)
+    tup = tuple(key[:len(before)]) + (Ellipsis,) + tuple(key[nd - len(after):] if after else ())
+    if via == 'getitem':
+        r = ctx.call(lambda: a[tup])
+    elif via == 'ix':
+        r = ctx.call(lambda: a.ix[tup])
+    elif via == 'loc':
+        r = ctx.call(lambda: a.loc[tup])
+    elif via == 'take':
+        r = ctx.call(lambda: a.take(tup))
+    elif via == 'take-position':
+        r = ctx.call(lambda: a.take(tup, indexing='position'))
+    else:
+        raise ValueError(via)
+    if any(s is None for s in sel):
+        return ctx.done(r == ('exc', 'IndexError'), r[1] if r[0] != 'ok' else ctx.observe(r[1]))
+    if r[0] != 'ok':
+        return ctx.done(False, r[1])
+    return ctx.done(same(ctx, r[1], ref.select(sel)), ctx.observe(r[1]))
+
+
 def zero_d(ctx):
     v = ctx.real('v')
     a = ctx.da.DimArray(ctx.np.array(v))
@@ -391,4 +442,16 @@ def templates():
             for rich in range(len(shape)):
                 add('pos-%s-%s-rich%d' % (via, 'x'.join(map(str, shape)), rich), 'position_nd', cost=1.5, shape=shape, lkinds=lks, via=via, rich=rich)
     add('pos-ix-3d', 'position_nd', cost=4, shape=[2, 2, 3], lkinds=['i', 'U', 'f'], via='ix', rich=2)
+    # Ellipsis in the key (NumPy's rule: it absorbs the dimensions not addressed explicitly)
+    for via in ('getitem', 'ix', 'loc', 'take', 'take-position'):
+        for shape, lks in (([2, 3], ['U', 'i']), ([2, 2, 3], ['i', 'U', 'f'])):
+            nd = len(shape)
+            forms = [['...', 'scalar'], ['...', 'slice'], ['scalar', '...'], ['...', 'list2' if via not in ('ix', 'take-position') else 'list'], ['...']]
+            if nd == 3:
+                forms += [['scalar', '...', 'slice'], ['...', 'scalar', 'slice'], ['slice', 'scalar', '...'], ['scalar', '...', 'scalar']]
+            else:
+                forms += [['scalar', '...', 'slice'], ['scalar', 'slice', '...']]
+            for f in forms:
+                add('ellipsis-%s-%dd-%s' % (via, nd, '_'.join(x.replace('...', 'E') for x in f)), 'ellipsis_nd', cost=1.5 if 'list2' not in f else 4,
+                    shape=shape, lkinds=lks, via=via, kinds=f)
     return ts
